@@ -73,6 +73,9 @@ def run_trainer(key):
         opt = tuple(opt)
     cplx = fam in ('cgauss', 'watson', 'cacg', 'bingham')
     y = A.generic_data(seed, lead + (N, D), 'c08', fam, complex_=cplx)
+    if key.get('data') == 'offset':
+        # spread 1 around an offset of 1e5: E[y^2] - mean^2 would lose ten digits
+        y = y + 1e5 * (1 + np.arange(D))
     if key.get('data') == 'collinear':
         # exactly collinear frames (positive multiples of one vector per slice): r_bar = 1
         r = A.rng(seed, 'collinear', fam, D, N, lead)
@@ -173,9 +176,14 @@ def run_cacg_trainer(key):
     D, N, lead, its, norm, herm, seed = (key[k] for k in ('D', 'N', 'lead', 'its', 'norm', 'herm', 'seed'))
     lead = tuple(lead)
     y = A.generic_data(seed, lead + (N, D), 'c08cacg')
+    floor = 1e-10
+    if key.get('variant') == 'rankdef':
+        y[..., D - 1] = 0              # frames inside a (D-1)-dimensional subspace: the floor is active
+    elif key.get('variant') == 'bigfloor':
+        floor = 0.05
     y.setflags(write=False)
     got, e = _call(lambda: d.ComplexAngularCentralGaussianTrainer().fit(
-        y, hermitize=herm, covariance_norm=norm, iterations=its))
+        y, hermitize=herm, covariance_norm=norm, iterations=its, eigenvalue_floor=floor))
     if e is not None:
         return viol(f'ComplexAngularCentralGaussianTrainer.fit raised {e!r}')
     U, lam = np.asarray(got.covariance_eigenvectors), np.asarray(got.covariance_eigenvalues)
@@ -186,16 +194,18 @@ def run_cacg_trainer(key):
         if its <= 5:
             q = np.ones(N)
             for _ in range(its):
-                B, l, u = M.m_cacg(z[idx], np.ones(N), q, herm, norm, 1e-10)
+                B, l, u = M.m_cacg(z[idx], np.ones(N), q, herm, norm, floor)
                 _, q = RD.cacg_logpdf(y[idx], u, l)
             bad = tol.mismatch(M.canon_psd(U[idx], lam[idx]), B, tol.ITER if its > 1 else tol.TIGHT,
-                               what=f'cACG estimate after {its} Tyler steps')
+                               what=f'cACG estimate after {its} Tyler steps') or \
+                tol.mismatch(np.log(np.sort(lam[idx])), np.log(np.sort(l)), tol.ITER * 10,
+                             what=f'cACG log-eigenvalues after {its} Tyler steps ({key.get("variant")})')
             if bad:
                 return viol(bad)
         else:
             # fixed point: one more reference step from the returned estimate reproduces it
             _, q = RD.cacg_logpdf(y[idx], U[idx], lam[idx])
-            B, l, u = M.m_cacg(z[idx], np.ones(N), q, herm, norm, 1e-10)
+            B, l, u = M.m_cacg(z[idx], np.ones(N), q, herm, norm, floor)
             bad = tol.mismatch(M.canon_psd(U[idx], lam[idx]), B, 1e-6,
                                what=f'cACG fixed point after {its} iterations')
             if bad:
@@ -354,6 +364,9 @@ def run_alternation(key):
             opts['hermitize'] = ref_opts['hermitize'] = False
         elif opt == 'eps':
             opts['affiliation_eps'] = eps = 1e-3
+        elif opt in ('trace_floor', 'nonorm_floor'):
+            opts['covariance_norm'] = ref_opts['norm'] = 'trace' if opt == 'trace_floor' else False
+            opts['eigenvalue_floor'] = ref_opts['floor'] = 0.05
     if model == 'cbmm' and opt == 'eps':
         opts['affiliation_eps'] = eps = 1e-3
     if model == 'gmm':
@@ -505,6 +518,12 @@ def subchecks(tier, seed):
                                 continue
                             for opt in opts:
                                 yield (fam, D, N, lead, pat, opt, 'generic', seed)
+        for D in (1, 2, 3, 5):
+            for N in (D + 2, 12, 40):
+                for lead in ((), (2,)):
+                    for pat in (('none',), ('graded',), ('tiny',)):
+                        for opt in ('full', 'diagonal', 'spherical'):
+                            yield ('gauss', D, N, lead, pat, opt, 'offset', seed)
         for fam, opts in (('watson', (500.0, 5.0)), ('vmf', ((1e-10, 500.0), (2.0, 5.0)))):
             for D in (2, 3, 5, 8):
                 for N in (2, 3, 7, 12, 31):
@@ -528,8 +547,11 @@ def subchecks(tier, seed):
                                 # (Tyler's iteration converges slowly for N close to D)
                                 if (its == 500) != (N == 4 * D + 4):
                                     continue
-                                yield (D, N, lead, its, norm, herm, seed)
-    subs.append(Sub('cacg_trainer', ('D', 'N', 'lead', 'its', 'norm', 'herm', 'seed'), cacg_cases,
+                                yield (D, N, lead, its, norm, herm, 'regular', seed)
+                                if its in (1, 2) and N == 12:
+                                    yield (D, N, lead, its, norm, herm, 'rankdef', seed)
+                                    yield (D, N, lead, its, norm, herm, 'bigfloor', seed)
+    subs.append(Sub('cacg_trainer', ('D', 'N', 'lead', 'its', 'norm', 'herm', 'variant', 'seed'), cacg_cases,
                     run_cacg_trainer))
 
     def weight_cases():
@@ -577,7 +599,7 @@ def subchecks(tier, seed):
             integ = model in M.INTEGRATION
             wcas = ((-1,), (-3,), (-3, -1), (-3, -2, -1)) if integ else \
                 ((-1,), -2, (-3,), (-3, -1), (-2,))
-            optmap = {'cacgmm': ('default', 'trace', 'nonorm', 'nohermit', 'eps'),
+            optmap = {'cacgmm': ('default', 'trace', 'nonorm', 'nohermit', 'eps', 'trace_floor', 'nonorm_floor'),
                       'cwmm': ('default', 'bounds'), 'cbmm': ('default', 'eps'),
                       'gmm': ('full', 'diagonal', 'spherical'), 'vmfmm': ('default', 'bounds'),
                       'gcacgmm': ('default', 'full', 'diagonal', 'streams', 'trace'),
